@@ -76,7 +76,20 @@ impl<'a, P: ?Sized + PathImpl> PathMutImpl<'a, P> {
 		}
 	}
 
+	/// Checks if the path directly follows the authority of a URI/IRI
+	/// reference, where a non-empty path must be absolute.
+	fn after_authority(&self) -> bool {
+		self.follows_authority && self.start > 0
+	}
+
 	pub fn push(&mut self, segment: &P::Segment) {
+		if self.start == self.end && self.after_authority() {
+			// VALIDITY: When an authority is present, the path must be
+			//           absolute.
+			replace(self.buffer, self.start..self.start, b"/");
+			self.end += 1;
+		}
+
 		// Disambiguate if the path is empty and one of the following is true:
 		// - `segment` looks like a scheme and path is a the start.
 		// - `segment` is empty, path is absolute and following an authority.
@@ -123,7 +136,7 @@ impl<'a, P: ?Sized + PathImpl> PathMutImpl<'a, P> {
 	pub fn pop(&mut self) -> bool {
 		let is_empty = self.is_empty();
 
-		if (is_empty && self.is_relative())
+		if (is_empty && self.is_relative() && !self.after_authority())
 			|| self.last().map(SegmentImpl::as_bytes) == Some(PARENT_SEGMENT)
 		{
 			self.push(<P::Segment as SegmentImpl>::PARENT);
